@@ -7,6 +7,13 @@ TRUST = ("trusted base: go/types + go/ssa (x/tools v0.50.0), goyacc v0.29.0's LA
          "interface calls that leave the module (Entry, plugins) are opaque")
 
 CHECKS = {
+    "C18": dict(
+        cat="other",
+        text=("Thin, and stated as such: decides mechanisms that exact structural validation and default decoration depend on — the plain data node's fields have no writer but the constructor; the decorator stores nothing into, and never appends to, the child slice it receives, allocates a result of the same length and wraps child i at index i; a default is created only after a seen-name test skipped explicit children; leaf.HasDefault goes through leaf.Default, which suppresses a type default on a mandatory leaf; cardinalityInRange compares len < min and len > max with all-ones meaning unbounded; the table grouping list entries by unique-key is allocated inside the loop over the unique statements (SSA block-in-loop test). The mandatory/unique semantics on concrete trees are not decided."),
+        ref="DESIGN.md §4 C18",
+        technique="who-writes sets, SSA store/append rooting on a parameter, statement-order rule, comparison extraction, allocation-site-in-loop test",
+        note="Not decided: mandatory/unique through presence chains and choices, idempotence as an equality over trees. " + TRUST,
+    ),
     "C17": dict(
         cat="other",
         text=("Decides that the schema walk cannot accept without checking: every concrete node kind declares its own Validate (method-set query; none inherits the accept-everything (*node).Validate); in each of tree, container, list, list entry, choice, case, leaf and leaf-list the method starts with the empty-path arm, which returns nil only under the condition the property states for that kind (presence / empty type / incomplete paths allowed / never for choice and case), and with tokens remaining it either rejects or ends in a delegating call (child.Validate(ctx, path, p[1:]) or the type's Validate on the value) with no other nil exit; leaf and leaf-list reject tokens after the value; the list's key leaf validates the token after the list name unconditionally and its error is returned; every error constructor renders the walked path with pathutil.Pathstr."),
